@@ -401,6 +401,10 @@ def _reaches(repo, f, fd: FlowDeps, deps: Deps, py, callee, formal, value_typed=
                 for st in n.body + n.orelse:
                     if any(A.call_attr(c) == formal for c in A.calls_in(st)):
                         return True, f"guards {formal}(...)"
+            if isinstance(n, ast.IfExp) and (py in A.names_loaded(n.test) or deps.depends_on(n.test, py)):
+                for arm in (n.body, n.orelse):
+                    if any(A.call_attr(c) == formal for c in ast.walk(arm) if isinstance(c, ast.Call)):
+                        return True, f"selects {formal}(...)"
         return False, f"does not control any call of {formal}"
     calls = _calls_named(f.node, callee)
     if not calls:
